@@ -278,14 +278,19 @@ PROPS["C05"] = dict(
                  "Driver::{set,unset,with_current}: thread_local! storage replaced by a static with identical bodies (kani-compiler ICE on TLS destructors); driver installed directly (no ModuleRef::activate)"],
     outside=["tokio task wake path and LocalSet polling (C06)", "more than 3 slots", "ModuleRef::activate/deactivate glue (needs ModuleContext; see C09 harnesses)", "whole-run composition of the steps"],
     harnesses=[
-        H(M05, "c05_next_earliest_live", unwindset=[REALLOC], bounds="3 slots, strictly increasing symbolic deadlines<=7ns, symbolic liveness each"),
-        H(M05, "c05_bump_exactly_due", unwindset=[REALLOC], bounds="2 slots (front one live or emptied), symbolic deadlines, symbolic now<=7ns"),
-        H(M05, "c05_add_sorted_once", unwindset=[REALLOC], bounds="2 slots + add at symbolic deadline 0..7 (before/equal/between/after)"),
-        H(M05, "c05_handle_drop_resolve_reset", unwindset=[REALLOC], bounds="1 slot + added timer; symbolic mode drop/resolve/reset(new deadline 1..7)"),
-        H(M05, "c05_sleep_poll", unwindset=[REALLOC], bounds="Sleep with symbolic deadline<=6, now<=4; poll, re-poll, poll at symbolic later now<=7"),
-        H(M05, "c05_sleep_reset_reregisters", unwindset=[REALLOC], bounds="registered Sleep (deadline 2..5, now=1), reset to symbolic 0..7, poll"),
+        H(M05, "c05_next_earliest_live", bounds="3 slots, strictly increasing symbolic deadlines<=7ns, symbolic liveness each"),
+        H(M05, "c05_bump_one_slot", tier="experimental", mem=30, bounds="1 slot live/emptied, symbolic deadline<=5, now<=6"),
+        H(M05, "c05_add_one_slot", tier="experimental", mem=30, bounds="1 slot + add at symbolic deadline 0..6 (before/equal/after)"),
+        H(M05, "c05_drop_unregisters", bounds="add at symbolic deadline, resolve-or-not, drop handle"),
+        H(M05, "c05_reset_moves_registration", tier="experimental", mem=30, bounds="add at symbolic deadline 1..6, reset to symbolic 1..6"),
+        H(M05, "c05_sleep_first_poll", bounds="Sleep symbolic deadline<=6, now<=4, first poll"),
+        H(M05, "c05_bump_exactly_due", tier="experimental", mem=30, bounds="2 slots (front one live or emptied), symbolic deadlines, symbolic now<=7ns"),
+        H(M05, "c05_add_sorted_once", tier="experimental", mem=30, bounds="2 slots + add at symbolic deadline 0..7 (before/equal/between/after)"),
+        H(M05, "c05_handle_drop_resolve_reset", tier="experimental", mem=30, bounds="1 slot + added timer; symbolic mode drop/resolve/reset(new deadline 1..7)"),
+        H(M05, "c05_sleep_poll", tier="experimental", mem=30, bounds="Sleep with symbolic deadline<=6, now<=4; poll, re-poll, poll at symbolic later now<=7"),
+        H(M05, "c05_sleep_reset_reregisters", tier="experimental", mem=30, bounds="registered Sleep (deadline 2..5, now=1), reset to symbolic 0..7, poll"),
         H(M05, "c05_timeout_poll", bounds="timeout_at(symbolic deadline<=6, inner ready flag symbolic), now<=4"),
-        H(M05, "c05_interval_tick_period", unwindset=[REALLOC], bounds="interval_at(start<=3, period 1..3), now<=4; two poll_tick calls"),
+        H(M05, "c05_interval_tick_period", tier="experimental", mem=30, bounds="interval_at(start<=3, period 1..3), now<=4; two poll_tick calls"),
         H(M05, "c05_missed_tick_formulas", bounds="scheduled<=1000ns, now in [scheduled,2000], period 1..1000ns; Burst/Delay/Skip"),
     ],
 )
